@@ -37,7 +37,7 @@ def generate(ctx):
         if inp["built"][0] != "ok":
             continue
         op = ops[i % len(ops)]
-        cases.append(op(rng, inp))
+        cases.append(ao.run_op(op, rng, inp))
     cases.extend(c05_frame.generate(ctx))
     cases.extend(kernels.generate(ctx, ctx.budget(64, 640)))
     for k, c in enumerate(cases):
